@@ -69,7 +69,7 @@ func scenarioSizeWeight(c *vrun.Ctx) {
 				got := strings.Join(survivors, ",")
 				c.Outcome(desc + ":" + got + ":" + trigErr)
 				if ex.Status != "complete" {
-					c.Violation("C14/size-weight/"+ex.Status, desc+": "+ex.Detail, nil)
+					c.Violation("C13/size-weight/execution-"+ex.Status, desc+": "+ex.Detail, nil)
 					continue
 				}
 				// gap 0: all three were used in the same instant: one large entry goes (either)
